@@ -83,7 +83,8 @@ def matchWhoMsg (s : Bytes) : Option (Bytes × Bytes) :=
 /-- Perl class `\s` = `[\t\n\f\r ]` -/
 def isPerlSpace (b : UInt8) : Bool := b == 9 || b == 10 || b == 12 || b == 13 || b == 32
 
-def bytesOf (s : String) : Bytes := s.toUTF8.toList
+/-- the bytes of an ASCII string literal -/
+def bytesOf (s : String) : Bytes := s.toList.map (fun c => UInt8.ofNat c.toNat)
 
 def matchRE (re : String) (line : Bytes) : Option (List Bytes) :=
   if re == Facts.tellRE then
@@ -116,25 +117,32 @@ def featureNames : List Bytes :=
     let b := Facts.featureIndex.getD (i + 1) 0
     (blob.drop a).take (b - a)
 
-/-- index of a key in the `featureNames` map built by `init` -/
-def lookupFeature (k : Bytes) : Option Nat :=
-  let i := featureNames.findIdx (· == k)
-  if i < featureNames.length then some i else none
+/-- `featureNames[k]` for the map built by `init` from the name table `names`: the index of the key -/
+def lookupFeature (names : List Bytes) (k : Bytes) : Option Nat :=
+  let i := names.findIdx (· == k)
+  if i < names.length then some i else none
 
-/-- the `for k, v := range h` loop of `UnmarshalJSON`; `ws` has `MaxFeature` entries -/
-def assignLoop : List (Bytes × Int) → Array Int → R (Array Int)
+/-- the body of the `for k, v := range h` loop of `UnmarshalJSON` (`ws[f] = v` with Go's bounds check) -/
+def assignOne (names : List Bytes) (ws : Array Int) (k : Bytes) (v : Int) : R (Array Int) :=
+  match lookupFeature names k with
+  | none => .error (.illegal "Unknown feature")
+  | some f =>
+    if f < ws.size then .ok (ws.setIfInBounds f v)
+    else .error (.panic "Weights index out of range")
+
+/-- the `for k, v := range h` loop -/
+def assignLoop (names : List Bytes) : List (Bytes × Int) → Array Int → R (Array Int)
   | [], ws => .ok ws
   | (k, v) :: h, ws =>
-    match lookupFeature k with
-    | none => .error (.illegal "Unknown feature")
-    | some f =>
-      if f < ws.size then assignLoop h (ws.setIfInBounds f v)
-      else .error (.panic "Weights index out of range")
+    match assignOne names ws k v with
+    | .error e => .error e
+    | .ok ws => assignLoop names h ws
 
-/-- `(*Weights).UnmarshalJSON` -/
-def unmarshalWeights (lib : JsonLib) (ws : Array Int) (bs : Bytes) : R (Array Int) :=
+/-- `(*Weights).UnmarshalJSON`; `names` is the feature-name table (`featureNames` in the real program),
+`ws` the receiver array of `MaxFeature` entries -/
+def unmarshalWeights (lib : JsonLib) (names : List Bytes) (ws : Array Int) (bs : Bytes) : R (Array Int) :=
   match lib.unmarshalMap bs with
   | .error e => .error e
-  | .ok h => assignLoop h ws
+  | .ok h => assignLoop names h ws
 
 end TextGlue
